@@ -354,8 +354,147 @@ fn reader_view(pdf: &[u8], cat: &str) -> String {
     if keys.is_empty() { "ok:.".into() } else { format!("ok:{}", keys.join(",")) }
 }
 
-fn gen(_rng: &mut Rng, _tier: Tier) -> Vec<Case> {
-    vec![]
+const KINDS: [&str; 9] = ["img", "font", "gfont", "form", "cs", "pat", "sh", "shop", "mc"];
+
+/// pieces the random names are assembled from: benign runs, each white-space byte, each
+/// delimiter, `#` forms, controls, DEL, 2/3/4-byte UTF-8, PDF keywords and real dictionary keys
+const PIECES: [&str; 64] = [
+    "A", "b", "Im", "F1", "x9", "-", "_", ".", "+", "Type", "Font", "XObject", "Resources", "Courier", "R", "12", "0",
+    "true", "null", "obj", "endobj", " ", " ", "\t", "\n", "\r", "\x0c", "\0", "(", ")", "<", ">", "<<", ">>", "[", "]", "{",
+    "}", "/", "%", "#", "#41", "#4", "#zz", "#+5", "#20", "\x01", "\x07", "\x1b", "\x7f", "\u{80}", "\u{a0}", "é", "ÿ",
+    "Ā", "€", "\u{fffd}", "😀", "\u{10ffff}", " 6 0 R /Inj", ">> /Inj << /A", " Do\nq", ";", "\\",
+];
+
+fn class_of(n: &str) -> &'static str {
+    let b = n.as_bytes();
+    if b.iter().any(|c| matches!(c, 0 | 9 | 10 | 12 | 13 | 32 | b'(' | b')' | b'<' | b'>' | b'[' | b']' | b'{' | b'}' | b'/' | b'%')) {
+        "ws-delim"
+    } else if b.contains(&b'#') {
+        "hash"
+    } else if b.iter().any(|&c| c >= 128) {
+        "non-ascii"
+    } else {
+        "safe"
+    }
+}
+
+/// names that would switch the real content parser into inline-image mode (`BI` / `ID` as a word)
+/// or put the keyword `stream` behind a `>>` are outside the model (`unmodelled`): not generated
+fn outside_model(n: &str) -> bool {
+    let words = n.split(|c: char| c.is_ascii_whitespace() || "()<>[]{}/%;".contains(c));
+    for w in words {
+        if w == "BI" || w == "ID" || w.starts_with("stream") {
+            return true;
+        }
+    }
+    false
+}
+
+fn case(kind: &str, n: &str, n2: Option<&str>, fam: &str) -> Option<Case> {
+    if outside_model(n) || n2.map(outside_model).unwrap_or(false) {
+        return None;
+    }
+    let plain = |s: &str| !s.is_empty() && s.bytes().all(|c| c.is_ascii_alphanumeric());
+    let nt = !plain(n) || n2.map(|x| !plain(x) || x.starts_with(n) || n.starts_with(x)).unwrap_or(false);
+    let cls = match n2 {
+        Some(x) if class_of(n) == "safe" => class_of(x),
+        _ => class_of(n),
+    };
+    let len = match n.len() { 0 => "len0", 1..=8 => "len1-8", 9..=64 => "len9-64", _ => "len65+" };
+    let req = match n2 {
+        Some(x) => format!("{} {} {}", kind, hex(n.as_bytes()), hex(x.as_bytes())),
+        None => format!("{} {}", kind, hex(n.as_bytes())),
+    };
+    Some(Case::new(req, format!("{} {} {} {}{}", kind, fam, cls, len, if nt { " nt" } else { "" })))
+}
+
+fn random_name(rng: &mut Rng, max_pieces: u64) -> String {
+    let k = rng.below(max_pieces + 1);
+    let mut s = String::new();
+    for _ in 0..k {
+        // two thirds benign, one third anything
+        if rng.chance(2, 3) {
+            s.push_str(PIECES[rng.below(22) as usize]);
+        } else {
+            s.push_str(PIECES[rng.below(PIECES.len() as u64) as usize]);
+        }
+    }
+    s
+}
+
+fn gen(rng: &mut Rng, tier: Tier) -> Vec<Case> {
+    let mut v: Vec<Case> = Vec::new();
+    let mut push = |c: Option<Case>| {
+        if let Some(c) = c {
+            v.push(c);
+        }
+    };
+    // 1. fixed boundary names × every entry point
+    let fixed = [
+        "Im1", "", "My Image", "A#42", "A#4", "A#", "#", "A#zz", "A/B", "/", "A(B", "A)B", "A<B", "A>B", "A>>B", "A[B", "A]B",
+        "A{B", "A}B", "A%B", "A\0B", "A\tB", "A\nB", "A\rB", "A\x0cB", " A", "A ", "\x01", "A\x7fB", "é", "A\u{80}", "€uro", "😀",
+        "Type", "Font", "Courier", "Helvetica-Bold", "R", "0", "12", "true", "null", "-1", "+", ".", "A;B", "A\\B", "A'B", "A\"B",
+        "x 6 0 R /Inj", "x >> /Inj << /y", "x Do q", "F1 12 Tf (", "endobj", "obj",
+    ];
+    for k in KINDS {
+        for n in fixed {
+            push(case(k, n, None, "fixed"));
+        }
+    }
+    // 2. every ASCII code point (and a table of non-ASCII ones) at the start / middle / end of a
+    //    benign name; the entry point rotates so that each byte meets each kind over the positions
+    let extra = ['\u{80}', '\u{a0}', '\u{e9}', '\u{ff}', '\u{100}', '\u{7ff}', '\u{800}', '\u{20ac}', '\u{d7ff}', '\u{e000}', '\u{fffd}', '\u{10000}', '\u{1f600}', '\u{10ffff}'];
+    let cps: Vec<char> = (0u8..128).map(|b| b as char).chain(extra.iter().copied()).collect();
+    for (i, c) in cps.iter().enumerate() {
+        for pos in 0..3usize {
+            let n = match pos {
+                0 => format!("{}Nm", c),
+                1 => format!("N{}m", c),
+                _ => format!("Nm{}", c),
+            };
+            let rounds = if tier == Tier::Thorough { KINDS.len() } else { 2 };
+            for r in 0..rounds {
+                let k = KINDS[(i + pos * 3 + r * 4) % KINDS.len()];
+                push(case(k, &n, None, "byte"));
+            }
+        }
+    }
+    // 3. two images: equal names, prefixes of each other, both orders, hostile second name
+    let pairs = [
+        ("A", "A"), ("A", "AB"), ("AB", "A"), ("Im1", "Im10"), ("b", "a"), ("a", "b"), ("", "A"), ("A", ""), ("A", "A B"),
+        ("A B", "A"), ("A", "A#42"), ("AB", "A#42"), ("é", "e"), ("é", "Ã©"), ("Im 1", "Im 2"), ("Z", "a"), ("A/B", "A"),
+    ];
+    for (a, b) in pairs {
+        push(case("img2", a, Some(b), "pair"));
+    }
+    let n_rand = if tier == Tier::Thorough { 6000 } else { 700 };
+    for i in 0..n_rand {
+        // 4. random assembled names, all entry points
+        let k = KINDS[rng.below(KINDS.len() as u64) as usize];
+        let n = random_name(rng, 6);
+        if i % 10 == 0 {
+            let mut n2 = if rng.chance(1, 2) { format!("{}{}", n, random_name(rng, 2)) } else { random_name(rng, 4) };
+            if rng.chance(1, 8) {
+                n2 = n.clone();
+            }
+            push(case("img2", &n, Some(&n2), "rand"));
+        } else {
+            push(case(k, &n, None, "rand"));
+        }
+    }
+    // 5. long names (benign run with one hostile piece somewhere)
+    let n_long = if tier == Tier::Thorough { 120 } else { 24 };
+    for _ in 0..n_long {
+        let k = KINDS[rng.below(KINDS.len() as u64) as usize];
+        let len = 65 + rng.below(if tier == Tier::Thorough { 3000 } else { 400 }) as usize;
+        let mut n: String = (0..len).map(|_| (b'a' + rng.below(26) as u8) as char).collect();
+        if rng.chance(2, 3) {
+            let at = rng.below(len as u64 + 1) as usize;
+            n.insert_str(at, PIECES[22 + rng.below(PIECES.len() as u64 - 22) as usize]);
+        }
+        push(case(k, &n, None, "long"));
+    }
+    v
 }
 
 fn main() {
